@@ -168,12 +168,18 @@ PROPS = {
         "assumptions": ["issuer JWT signature checking is an oracle of the model (table of harness-signed HS256 tokens)"],
     },
     "C10": {
-        "rule": "exhaustive enumeration of all strings over {a . ~} up to length 8 (quick) / 11 (thorough) through sd_jwt_parts; "
-                "a case is non-trivial when the string contains at least one '~' (the splitter takes its indexing path); distinct = distinct (kind,input)",
+        "rule": "(i) all strings over {a . ~} up to length 8 (quick) / 11 (thorough) through sd_jwt_parts (exact result vs model) and up to length 6 / 9 through Holder::verify, "
+                "Verifier::verify (with and without KB policy), Holder::presentation+build (outcome class vs model) and through the entry points without a model (from_base64, "
+                "HashAlgorithm::try_from, decode, verify_kb, Jwk::from_value, KeyForDecoding/KeyForEncoding::from_*, parse_yaml: no panic); (ii) 1 500 / 20 000 structure-aware "
+                "mutations of valid reference-issued tokens: every JSON type for _sd, _sd_alg, cnf and its kty/n/e, validly signed payloads of every JSON type, odd placeholders, "
+                "disclosures of any JSON type / arity, truncated base64, invalid UTF-8, segment deletion / duplication, bogus KB segments; 10^3 disclosures with a 2*10^4-entry _sd; "
+                "(iii) compounded nesting 100..20 000 levels run in a child process on a 2 MiB thread; (iv) exp/nbf at the edge of u64 through the JWT library; (v) 21 malformed / "
+                "mis-tagged / deeply nested YAML documents. non-trivial = input reaching beyond the first splitter; distinct = distinct (kind,input)",
         "exhaustive": True,
-        "explanation": "theorems: the modelled splitters are total (never Panic) on every string; correspondence: model = sdjwt::sd_jwt_parts on the enumerated strings",
+        "explanation": "the enumeration of strings over {a . ~} up to the stated length is complete; the other streams are sampled",
         "trusted_base": [],
-        "assumptions": ["panics inside serde_json/base64/jwt-rustcrypto are runtime behaviour of oracles; covered only by the malformed-input run"],
+        "assumptions": ["panics, aborts and non-termination inside serde_json, serde_yaml, base64, jwt-rustcrypto, RustCrypto and pem parsing, and stack exhaustion, are runtime behaviour of "
+                        "code the model treats as oracles; they are covered only by the malformed-input streams of this run"],
     },
 }
 
